@@ -1121,6 +1121,194 @@ fn run_otlp(cx: &mut Ctx, collector: &Collector, batch: &str, events: &[(u64, Mo
     }
 }
 
+
+// ---------------------------------------------------------------------------
+// OTLP: one instance whose signals use different encodings, with / without a rich resource
+// ---------------------------------------------------------------------------
+
+#[derive(Clone, Copy, Debug)]
+struct MixCfg {
+    logs: Enc,
+    traces: Enc,
+    metrics: Enc,
+    rich_resource: bool,
+}
+
+impl MixCfg {
+    fn enc_of(&self, signal: &str) -> Enc {
+        match signal {
+            "logs" => self.logs,
+            "traces" => self.traces,
+            _ => self.metrics,
+        }
+    }
+
+    fn complement(&self) -> MixCfg {
+        let flip = |e: Enc| if e == Enc::Proto { Enc::Json } else { Enc::Proto };
+        MixCfg { logs: flip(self.logs), traces: flip(self.traces), metrics: flip(self.metrics), rich_resource: self.rich_resource }
+    }
+
+    fn name(&self) -> String {
+        format!("logs-{}+traces-{}+metrics-{}+{}", self.logs.name(), self.traces.name(), self.metrics.name(), if self.rich_resource { "resource" } else { "no-resource" })
+    }
+}
+
+/// What every request of an instance with the rich resource must carry (sorted by key).
+fn rich_resource_expected() -> Attrs {
+    let mut v: Attrs = vec![
+        ("service.name".into(), AnyObs::Str("c13-é ✓".into())),
+        ("run".into(), AnyObs::Int(13)),
+        ("debug".into(), AnyObs::Bool(true)),
+        ("ratio".into(), AnyObs::Double(Some(0.5))),
+        ("tags".into(), AnyObs::Array(vec![AnyObs::Int(1), AnyObs::Int(2), AnyObs::Int(3)])),
+        ("big".into(), AnyObs::Str(u64::MAX.to_string())),
+        ("ключ".into(), AnyObs::Str("значение".into())),
+        ("m".into(), AnyObs::Kv(vec![("a".into(), AnyObs::Int(1)), ("b".into(), AnyObs::Str("two".into()))])),
+    ];
+    v.sort_by(|a, b| a.0.cmp(&b.0));
+    v
+}
+
+fn spawn_mixed(collector: &Collector, base: &str, cfg: &MixCfg) -> emit_otlp::Otlp {
+    let t = |signal: &str| emit_otlp::http(collector.url(&format!("{}/v1/{}", base, signal))).allow_compression(false);
+    let mut b = emit_otlp::new();
+    if cfg.rich_resource {
+        let tags = [1, 2, 3];
+        let mut m = std::collections::BTreeMap::new();
+        m.insert("a", M::I32(1));
+        m.insert("b", M::Str("two".into()));
+        let resource = [
+            ("service.name", emit::Value::from("c13-é ✓")),
+            ("run", emit::Value::from(13)),
+            ("debug", emit::Value::from(true)),
+            ("ratio", emit::Value::from(0.5)),
+            ("tags", emit::Value::from(&tags)),
+            ("big", emit::Value::from(u64::MAX)),
+            ("ключ", emit::Value::from("значение")),
+            ("m", emit::Value::from_serde(&m)),
+        ];
+        b = b.resource(&resource[..]);
+    }
+    b = b.logs(if cfg.logs == Enc::Proto { emit_otlp::logs_proto(t("logs")) } else { emit_otlp::logs_json(t("logs")) });
+    b = b.traces(if cfg.traces == Enc::Proto { emit_otlp::traces_proto(t("traces")) } else { emit_otlp::traces_json(t("traces")) });
+    b = b.metrics(if cfg.metrics == Enc::Proto { emit_otlp::metrics_proto(t("metrics")) } else { emit_otlp::metrics_json(t("metrics")) });
+    b.spawn()
+}
+
+fn run_otlp_mixed(cx: &mut Ctx, collector: &Collector, batch: &str, b: u64, events: &[(u64, ModelEvent)]) {
+    // the six mixes in which not all signals share an encoding; the second instance is the complement,
+    // so every event is exported once in protobuf and once in JSON and the two can be compared
+    let bits = 1 + (b % 6);
+    let pick = |bit: u64| if bits & bit != 0 { Enc::Json } else { Enc::Proto };
+    let cfg_a = MixCfg { logs: pick(1), traces: pick(2), metrics: pick(4), rich_resource: (b / 6) % 2 == 0 };
+    let cfgs = [("a", cfg_a), ("b", cfg_a.complement())];
+    // which signal uses the instance first
+    let first_kind = [Kind::Span, Kind::Log, Kind::Metric][((b / 12) % 3) as usize];
+    let mut ordered: Vec<(u64, ModelEvent)> = events.to_vec();
+    if let Some(pos) = ordered.iter().position(|(_, e)| e.kind == first_kind) {
+        ordered.swap(0, pos);
+    }
+    let events = &ordered[..];
+    cx.r.observe(&format!("otlp:mixed:config:{}", cfg_a.name()), 1);
+    cx.r.observe(&format!("otlp:mixed:first-signal:{:?}", first_kind), 1);
+    let batch_case = json!({"seed": cx.seed, "section": cx.section, "batch": batch, "config": cfg_a.name(), "first_idx": events.first().map(|e| e.0)});
+
+    let mut decoded: Vec<Decoded> = Vec::new();
+    let mut panicked: BTreeMap<(usize, usize), String> = BTreeMap::new();
+    for (k, (label, cfg)) in cfgs.iter().enumerate() {
+        let base = format!("/{}/mix-{}", batch, label);
+        let otlp = std::sync::Arc::new(spawn_mixed(collector, &base, cfg));
+        cx.r.observe("otlp:mixed:events", events.len() as u64);
+        deliver(otlp.clone(), false, events, |_| {}, |n, res, _| {
+            if let Err(p) = res {
+                panicked.insert((k, n), p);
+            }
+        });
+        if !otlp.blocking_flush(Duration::from_secs(30)) {
+            cx.r.inconclusive("emit_otlp (mixed encodings) did not flush within 30 s");
+        }
+        drop(otlp);
+        let mut d = Decoded::default();
+        let want_resource = if cfg.rich_resource { rich_resource_expected() } else { Vec::new() };
+        for req in collector.take_prefix(&base) {
+            let signal = req.path.rsplit('/').next().unwrap_or("").to_string();
+            let enc = cfg.enc_of(&signal);
+            cx.r.observe(&format!("otlp:mixed:requests:{}:{}", signal, enc.name()), 1);
+            let want_ct = if enc == Enc::Proto { "application/x-protobuf" } else { "application/json" };
+            if req.content_type != want_ct {
+                cx.r.violation(&format!("C13:otlp:mixed-encodings:{}:content-type", signal), &format!("instance {}: the {} request carries content-type {:?}, its signal is configured for {}", cfg.name(), signal, req.content_type, enc.name()), batch_case.clone());
+            }
+            let before = d.resources.len();
+            let res = match enc {
+                Enc::Proto => decode_proto(&req.path, &req.body, &mut d),
+                Enc::Json => decode_json(&req.path, &req.body, &mut d),
+            };
+            if let Err(e) = res {
+                cx.r.violation(&format!("C13:otlp:mixed-encodings:{}:request-undecodable", signal), &format!("instance {}: the {} request does not decode as {}: {}", cfg.name(), signal, enc.name(), clip(&e)), batch_case.clone());
+                continue;
+            }
+            if d.resources.len() == before {
+                cx.r.violation(&format!("C13:otlp:mixed-encodings:{}:no-resource-element", signal), &format!("instance {}: the {} request has no Resource* element", cfg.name(), signal), batch_case.clone());
+            }
+            for res in &d.resources[before..] {
+                cx.r.observe("otlp:mixed:resource-comparisons", 1);
+                let mut sorted = res.clone();
+                sorted.sort_by(|a, b| a.0.cmp(&b.0));
+                if !attrs_equiv(&sorted, &want_resource) {
+                    cx.r.violation(
+                        &format!("C13:otlp:mixed-encodings:{}:resource", signal),
+                        &format!("instance {}: the {} request ({}) carries resource attributes {}, configured {}", cfg.name(), signal, enc.name(), clip(&format!("{:?}", sorted)), clip(&format!("{:?}", want_resource))),
+                        batch_case.clone(),
+                    );
+                }
+            }
+        }
+        decoded.push(d);
+    }
+
+    for (n, (idx, me)) in events.iter().enumerate() {
+        let mut found: Vec<(Enc, Found)> = Vec::new();
+        for (k, (_, cfg)) in cfgs.iter().enumerate() {
+            if let Some(p) = panicked.get(&(k, n)) {
+                cx.violation(me, *idx, "C13:otlp:mixed-encodings:panic", format!("emit_otlp (instance {}) panicked on the caller thread: {}", cfg.name(), p));
+                continue;
+            }
+            let f = find_records(&decoded[k], &me.vid);
+            let total = f.logs.len() + f.spans.len() + f.metrics.len();
+            if total != 1 {
+                cx.violation(me, *idx, &format!("C13:otlp:mixed-encodings:record-count:{}", if total == 0 { "missing" } else { "duplicated" }), format!("instance {}: event found in {} records (logs {}, spans {}, metrics {})", cfg.name(), total, f.logs.len(), f.spans.len(), f.metrics.len()));
+                continue;
+            }
+            let signal = if !f.logs.is_empty() { "logs" } else if !f.spans.is_empty() { "traces" } else { "metrics" };
+            let enc = cfg.enc_of(signal);
+            cx.r.observe(&format!("otlp:mixed:records:{}:{}", signal, enc.name()), 1);
+            if enc == Enc::Json && decoded[k].bytes_as_array && me.keys().iter().any(|key| { let p = me.first(key).unwrap(); p.structural() && p.model.any(&|x| matches!(x, M::Bytes(_))) }) {
+                cx.violation(me, *idx, "C13:otlp:json:bytes-value-not-base64", "JSON: a bytesValue is written as an array of numbers instead of base64 text".into());
+            }
+            for r in &f.logs {
+                check_log(cx, me, *idx, enc, r);
+            }
+            for r in &f.spans {
+                check_span(cx, me, *idx, enc, r);
+            }
+            for r in &f.metrics {
+                check_metric(cx, me, *idx, enc, r);
+            }
+            found.push((enc, f));
+        }
+        // the two instances export the same event in the two encodings
+        if found.len() == 2 && found[0].0 != found[1].0 {
+            cx.r.observe("otlp:mixed:proto-json-comparisons", 1);
+            let (pi, ji) = if found[0].0 == Enc::Proto { (0, 1) } else { (1, 0) };
+            let (a, bb) = (&found[pi].1, &found[ji].1);
+            if !found_equiv(a, bb, false) && !found_equiv(a, bb, true) {
+                let signal = if !a.logs.is_empty() { "logs" } else if !a.spans.is_empty() { "traces" } else { "metrics" };
+                cx.violation(me, *idx, &format!("C13:otlp:mixed-encodings:{}:proto-json-differ", signal), format!("the protobuf and JSON exports of the same event by complementary instances denote different records: {} vs {}", clip(&format!("{:?}", (a.logs.first(), a.spans.first(), a.metrics.first()))), clip(&format!("{:?}", (bb.logs.first(), bb.spans.first(), bb.metrics.first())))));
+            }
+        }
+    }
+}
+
 // ---------------------------------------------------------------------------
 // terminal sink (child process)
 // ---------------------------------------------------------------------------
@@ -1299,6 +1487,12 @@ fn section_events(seed: u64, section: &str, from: u64, to: u64, compound: bool) 
                 (i, gen_rt_event(&mut g, seed, section, i))
             })
             .collect(),
+        "mixed" => (from..to)
+            .map(|i| {
+                let mut g = Rng::stream(seed, &[13, 4, i]);
+                (i, gen_event(&mut g, seed, section, i, false))
+            })
+            .collect(),
         "wild" => (from..to)
             .map(|i| {
                 let mut g = Rng::stream(seed, &[13, 3, i]);
@@ -1357,6 +1551,12 @@ fn run_batch(r: &mut Report, collector: &Collector, root: &str, seed: u64, secti
         }
     }
     let batch = format!("{}-{}-{}", section, from, to);
+    if section == "mixed" {
+        if sinks.contains("otlp") {
+            run_otlp_mixed(&mut cx, collector, &batch, from / 50, &events);
+        }
+        return;
+    }
     if sinks.contains("file") {
         let dir = format!("{}/{}", root, batch);
         run_file(&mut cx, &dir, &events, section == "rt");
@@ -1439,6 +1639,15 @@ fn main() {
     let batches4 = (n4 + batch - 1) / batch;
     par_cases(&mut r, &args, batches4, |b, r| {
         run_batch(r, &collector, &root, seed, "wild", b * batch, ((b + 1) * batch).min(n4), false, &sinks, dump);
+    });
+
+    // 6. one Otlp instance whose signals use different encodings, with / without a rich resource,
+    //    first used by a span / a log / a metric
+    let mixed_batch = 50;
+    let n5 = args.get_u64("mixed-events", args.n(3_600, 240_000));
+    let batches5 = (n5 + mixed_batch - 1) / mixed_batch;
+    par_cases(&mut r, &args, batches5, |b, r| {
+        run_batch(r, &collector, &root, seed, "mixed", b * mixed_batch, ((b + 1) * mixed_batch).min(n5), false, &sinks, dump);
     });
 
     collector.stop();
